@@ -30,15 +30,18 @@
      literal evaluation and `s[0] = ch` act on it.)
    The only bookkeeping variable is the operation counter d that bounds the
    exploration; what happened is not recorded in the state: every transition
-   is exported (pre-state,
-   operation, post-state) for binding A, which replays it on the interpreter
-   and compares what every name reads.
+   is exported (pre-state, operation, post-state) for binding A, which
+   replays it on the interpreter and compares what every name reads.  After
+   the last operation of a sequence the model offers one more level of
+   "probes" (one documented mutation per container, IsProbe): what a
+   non-mutating operation returned can be told apart from an alias of its
+   input only by mutating one of the two afterwards.
 
    Mirrors: functions.py FuncAppend/FuncInsertAt/FuncDeleteAt/FuncRemove/
    FuncPut/FuncAdd/FuncSub/FuncMul/FuncSublist/FuncSorted/FuncZip/FuncList/
    FuncSet/FuncMap/FuncObject, nodes.py NodeDerefAssign/NodeDerefSlice/
-   NodeListComprehension/NodeSpread/NodeAssign, modules/list.ckl append_all,
-   reverse.                                                                 *)
+   NodeListComprehension/NodeSpread/NodeAssign/NodeLiteral, modules/list.ckl
+   append_all, reverse.                                                               *)
 EXTENDS HeapOps, TLC, Json, IOUtils
 
 CONSTANTS MaxRefs,    \* number of references (containers alive at once)
